@@ -6,6 +6,7 @@ import ESV.Comp.FrontW13
 import ESV.Comp.ToSrcEq
 import ESV.Comp.CodegenF0e
 import ESV.Comp.CgFinal
+import ESV.Comp.CgFinal5
 import Driver.Beh
 import ESV.SsbScript.Closed
 open Lean Drv ESV ESV.Comp
@@ -120,7 +121,7 @@ def resultTo (r : Except Err (List (List Comp.Op))) (infos coros : List (Option 
       ("coros", jList (jOpt Json.str) coros)])]
 
 mutual
-/-- diagnostics only: why a statement is outside `cgStmt 4` (empty = inside) -/
+/-- diagnostics only: why a statement is outside `cgStmt 5` (empty = inside; a macro call is outside `cgStmt 4`) -/
 def whyStmt : Stmt → String
   | .op n _ => if nameOK n then "" else "op name " ++ n
   | .inl c _ n _ => if ESV.Beh.isCtx c && nameOK n && n != Gen.op_return then "" else "inline ctx " ++ c ++ "/" ++ n
@@ -136,7 +137,6 @@ def whyStmt : Stmt → String
   | .while_ _ h body => if !ESV.Beh.isTest h.name then "while header" else whyStmts body
   | .for_ init h inc body =>
     if !ESV.Beh.isTest h.name then "for header" else if !cgSimple init then "for init" else if !cgSimple inc then "for inc" else whyStmts body
-  | .macroCall .. => "macro call"
   | _ => ""
 def whyStmts : Stmts → String
   | .nil => ""
@@ -186,7 +186,20 @@ def handle (op : String) (j : Json) : R Json := do
       ("f4why", .str (if p.macros ≠ [] then "macros" else if seqFrom p.routines 0 = false then "routine ids"
         else if p.routines.any (fun r => !cgStmts 4 r.body) then
           "stmt:" ++ (p.routines.foldl (fun acc r => if acc == "" then whyStmts r.body else acc) "")
-        else if ¬ (allDefs p).Nodup then "label defined twice" else if ¬ CgProg 4 p then "label not defined" else ""))])
+        else if ¬ (allDefs p).Nodup then "label defined twice" else if ¬ CgProg 4 p then "label not defined" else "")),
+      ("f5", .bool (decide (CgProg5 p))),
+      ("f5why", .str (if seqFrom p.routines 0 = false then "routine ids"
+        else if p.routines.any (fun r => !cgStmts 5 r.body) then
+          "stmt:" ++ (p.routines.foldl (fun acc r => if acc == "" then whyStmts r.body else acc) "")
+        else if ¬ (allDefs p).Nodup then "label defined twice"
+        else if p.routines.any (fun r => (mlStmts r.body).any (fun n => !(allDefs p).contains n)) then "label not defined"
+        else if ¬ (p.macros.map (·.name)).Nodup then "macro name twice"
+        else if p.macros.any (fun m => decide (¬ m.vars.Nodup)) then "macro variable twice"
+        else if p.macros.any (fun m => !cgStmts 5 m.body) then
+          "macro stmt:" ++ (p.macros.foldl (fun acc m => if acc == "" then whyStmts m.body else acc) "")
+        else if p.macros.any (fun m => decide (¬ (dfStmts m.body).Nodup)) then "macro label defined twice"
+        else if p.macros.any (fun m => (mlStmts m.body).any (fun n => !(dfStmts m.body).contains n)) then "macro label not defined in the macro"
+        else ""))])
   | "comp.backend" =>
     let rs ← (← asArr (← fld j "routines")).mapM fun r => do (← asArr r).mapM itemOf
     pure (resultTo (backend rs) [] [])
